@@ -298,7 +298,7 @@ fn run_child(args: &[String]) -> Result<Value, String> {
         match ch.try_wait() {
             Ok(Some(_)) => break,
             Ok(None) => {
-                if t0.elapsed() > Duration::from_secs(120) { let _ = ch.kill(); let _ = ch.wait(); return Err("hang".into()); }
+                if t0.elapsed() > Duration::from_secs(900) { let _ = ch.kill(); let _ = ch.wait(); return Err("hang".into()); }
                 std::thread::sleep(Duration::from_millis(3));
             }
             Err(e) => return Err(e.to_string()),
